@@ -1,5 +1,6 @@
 import EmsModel.Lemmas.Mask
 import EmsModel.Lemmas.MeshMask
+import EmsModel.Lemmas.NpMask
 /-!
 # C07 — clip masks select exactly the intersecting cells plus the requested buffer
 
@@ -655,5 +656,85 @@ example : ∀ f n, n ∈ exampleMesh.faceNodes f → n < exampleMesh.nNodes := b
   · have : exampleMesh.faceNodes f = [] := by
       simp [exampleMesh, FaceMesh.faceNodes, List.getD_eq_getElem?_getD, List.getElem?_eq_none (show [[0, 1, 2], [1, 3, 2], [2, 3, 4]].length ≤ f from hf)]
     rw [this] at h; simp at h
+
+/-! ## `c_mask_from_centres` / `smear_mask`, as the source has them
+
+`Ems.Gen.cMaskLeft`, `cMaskBack`, `cMaskNode` are terms of the numpy expression language of `Core/NpExpr.lean`,
+written by `harness/pipelines.py` from the SOURCE TEXT of `arakawa_c.c_mask_from_centres` and `masking.smear_mask`
+on every run: the three calls `masking.smear_mask(face_mask, [False, True] / [True, False] / [True, True])` are
+inlined, the generator `([(1, 0), (0, 1)] if pad_axis else [(0, 0)] for pad_axis in pad_axes)` and
+`itertools.product(*…)` are evaluated for these literal arguments, `(numpy.pad(arr, pad) for pad in paddings)` is
+unrolled and `functools.reduce(operator.or_, …)` folded into `|`.  The theorems say that these terms compute the
+three arrays of `cMaskFromCentres` — the hand model `cmask_left`, `cmask_back`, `cmask_node`, `smear_spec` are
+about — for every shape of the face mask.  A mask is read as a `0` / `1` array through `maskArr`
+(`maskArr_shape`, `maskArr_get`). -/
+
+/-- the translator understood every statement of `c_mask_from_centres` and `smear_mask` -/
+theorem cmask_pipelines_translated :
+    (Ems.Gen.pipelineComplaints.filter fun p => p.1 == "cMaskLeft" || p.1 == "cMaskBack" || p.1 == "cMaskNode") = [] := by
+  decide
+
+/-- a mask as an array: shape `(ny, nx)` -/
+theorem maskArr_shape_spec (m : Mask) : (maskArr m).shape = [m.ny, m.nx] ∧ (maskArr m).WF :=
+  ⟨maskArr_shape m, maskArr_wf m⟩
+
+/-- a mask as an array: element `[j, i]` is `m[j, i]` as `0` / `1` inside the array (and unreadable outside) -/
+theorem maskArr_get_spec (m : Mask) (j i : Nat) :
+    (maskArr m).get [j, i] = if j < m.ny ∧ i < m.nx then boolVal (m.get j i) else none :=
+  maskArr_get m j i
+
+/-- **`left_mask = masking.smear_mask(face_mask, [False, True])`, as written in the source**: for every face mask
+the generated term evaluates to the `(ny, nx + 1)` array of `(cMaskFromCentres face).left` -/
+theorem cmask_left_pipeline_spec (face : Mask) :
+    eval (cMaskEnv face) Gen.cMaskLeft = some (maskArr (cMaskFromCentres face).left) :=
+  cmask_left_pipeline face
+
+/-- **`back_mask = masking.smear_mask(face_mask, [True, False])`, as written in the source**: the `(ny + 1, nx)` array
+of `(cMaskFromCentres face).back` -/
+theorem cmask_back_pipeline_spec (face : Mask) :
+    eval (cMaskEnv face) Gen.cMaskBack = some (maskArr (cMaskFromCentres face).back) :=
+  cmask_back_pipeline face
+
+/-- **`node_mask = masking.smear_mask(face_mask, [True, True])`, as written in the source**: the `(ny + 1, nx + 1)`
+array of `(cMaskFromCentres face).node` -/
+theorem cmask_node_pipeline_spec (face : Mask) :
+    eval (cMaskEnv face) Gen.cMaskNode = some (maskArr (cMaskFromCentres face).node) :=
+  cmask_node_pipeline face
+
+/-! ## `blur_mask`, as the source has it
+
+`Ems.Gen.blurMask` is translated from the source text of `masking.blur_mask` on every run:
+`padded = numpy.pad(arr, size, constant_values=False)` becomes `padAll arr size False`; the `nditer` / `fromiter`
+idiom — `numpy.fromiter((arr[index] or numpy.any(padded[tuple(slice(i, i + size * 2 + 1) for i in index)]) for index
+in <the multi-indexes of arr>), count=arr.size, dtype=arr.dtype).reshape(arr.shape)` — becomes the dedicated
+constructor `windowAny arr padded (size * 2 + 1)`, whose meaning (`windowAnyArr`: the element itself or any element
+of the window that lies inside the padded array) is given in `Core/NpExpr.lean`.  The translator reads the pad width,
+the window extent, the arrays indexed and the `or` from the source; it trusts that `nditer` visits a C-contiguous
+array in C order. -/
+
+/-- **`masking.blur_mask(arr, size)`, as written in the source**: for every mask and every `size ≥ 0` the generated term
+evaluates to the array of `Mask.blur` — the hand model `blur_spec`, `blur_blur`, `grid_mask_spec` are about -/
+theorem blur_pipeline_spec (m : Mask) (size : Nat) :
+    eval (blurEnv m size) Gen.blurMask = some (maskArr (m.blur size)) :=
+  blur_pipeline m size
+
+/-- the translator understood every statement of `blur_mask` -/
+theorem blur_pipeline_translated : (Ems.Gen.pipelineComplaints.filter fun p => p.1 == "blurMask") = [] := by decide
+
+/-! non-vacuity -/
+example : eval (blurEnv (Mask.reshape 3 4 [true, false, false, false, false, false, false, false, false, false, false, true]) 1)
+      Gen.blurMask
+    = some (maskArr (Mask.reshape 3 4 [true, true, false, false, true, true, true, true, false, false, true, true])) := by
+  decide +kernel
+example : eval (blurEnv (Mask.reshape 1 5 [true, false, false, false, false]) 2) Gen.blurMask
+    = some (maskArr (Mask.reshape 1 5 [true, true, true, false, false])) := by decide +kernel
+example : eval (cMaskEnv (Mask.reshape 2 3 [false, true, false, false, false, true])) Gen.cMaskLeft
+    = some (maskArr (Mask.reshape 2 4 [false, true, true, false, false, false, true, true])) := by decide +kernel
+example : eval (cMaskEnv (Mask.reshape 2 3 [false, true, false, false, false, true])) Gen.cMaskNode
+    = some (maskArr (Mask.reshape 3 4 [false, true, true, false, false, true, true, true, false, false, true, true])) := by
+  decide +kernel
+example : eval (cMaskEnv (Mask.reshape 2 3 [false, true, false, false, false, true])) Gen.cMaskBack
+    = some (maskArr (Mask.reshape 3 3 [false, true, false, false, true, true, false, false, true])) := by
+  decide +kernel
 
 end Ems.C07
